@@ -346,6 +346,8 @@ Inv_C08_ArchiveCondition ==
 Inv_C08_PruneOldestOnly ==
     (lastw.actor = "od" /\ lastw.op = "del")
     => \A m \in Listed(od.L) : (od.L[m].rev < od.L[lastw.n].rev) => (~sets[m].ex \/ sets[m].del \/ sets[m].inc # od.L[m].inc)
+\* C08: pruning never removes a revision that is not archived (it may still be serving; fix 244db63)
+Inv_C08_PruneOnlyHistory == (lastw.actor = "od" /\ lastw.op = "del") => od.L[lastw.n].life = "Archived" \/ sets[lastw.n].life = "Archived"
 \* C09: a paused deployment creates, archives and prunes nothing
 Inv_C09_PausedNoRevisionChange ==
     (lastw.actor = "od" /\ lastw.op \in {"create", "archive", "del", "pause"}) => ~od.snap.paused
